@@ -102,6 +102,10 @@ impl RefSlave {
         if !rc::request_expects_reply(*fc) {
             return vec![];
         }
+        if fc & 0x0F == 9 && dsap.is_none() {
+            // FDL status request (GAP poll, live list): a passive station answers 'slave'
+            return rc::encode(&RefFrame::status_reply(*sa, self.addr, 0));
+        }
         let (fcv, fcb) = rc::fc_fcv_fcb(*fc);
         if fcv {
             if self.stored == Some((*sa, fcb)) && !self.last_resp.is_empty() {
@@ -342,6 +346,9 @@ pub enum Replace {
     WrongLength(i32),
     /// diagnostics reply with these extra flag bits (byte0, byte1)
     DiagFlags(u8, u8),
+    /// data response of exactly the configured input length with good status but carrying only a
+    /// DSAP (true) or only an SSAP (false)
+    OneSap(bool, u8),
 }
 
 #[derive(Clone, Debug, PartialEq, Eq, Hash)]
@@ -378,7 +385,8 @@ pub fn gen_act(t: &mut Tape, rich: bool) -> Act {
             let r = if !rich {
                 Replace::Status(0x03, 0)
             } else {
-                match t.below(8) {
+                match t.below(9) {
+                    8 => Replace::OneSap(t.bool(), *t.pick(&[62u8, 60, 0, 255])),
                     0 => Replace::Status(*t.pick(&[0x00u8, 0x01, 0x02, 0x03, 0x08, 0x09, 0x0A, 0x0C, 0x0D, 0x18, 0x2A, 0x33]), t.below(4) as usize),
                     1 => Replace::ShortConfirmation,
                     2 => Replace::WrongSaps,
@@ -445,6 +453,8 @@ pub struct View<'a> {
     pub callbacks: u64,
     pub fault_free_since_cycle: Option<u64>,
     pub cycles: u64,
+    /// observations are made after every poll (full stack) rather than after every callback
+    pub poll_driven: bool,
 }
 
 #[allow(unused_variables)]
@@ -601,6 +611,7 @@ impl DpRig {
             callbacks: self.callbacks,
             fault_free_since_cycle: self.fault_free_since_cycle,
             cycles: self.cycles,
+            poll_driven: false,
         }
     }
 
@@ -758,6 +769,10 @@ impl DpRig {
                                 let l = (want + d).clamp(0, 244) as usize;
                                 let l = if l as i32 == want { (want as usize + 1).min(244) } else { l };
                                 rc::encode(&RefFrame::Data { da: ma, sa: addr, dsap: None, ssap: None, fc: 0x08, pdu: vec![0xC3; l] })
+                            }
+                            Replace::OneSap(d, sap) => {
+                                let want = self.cfg.pers[k].in_len;
+                                rc::encode(&RefFrame::Data { da: ma, sa: addr, dsap: if *d { Some(*sap) } else { None }, ssap: if *d { None } else { Some(*sap) }, fc: 0x08, pdu: vec![0x3C; want] })
                             }
                             Replace::DiagFlags(b0, b1) => rc::encode(&RefFrame::Data { da: ma, sa: addr, dsap: Some(62), ssap: Some(60), fc: 0x08, pdu: vec![*b0, *b1 | 0x04, 0, ma, (ident >> 8) as u8, ident as u8] }),
                         };
